@@ -2,6 +2,7 @@
 
 from __future__ import annotations
 
+import ast
 import json
 import os
 import pathlib
@@ -27,7 +28,7 @@ META = {
         "histories: Hypothesis RuleBasedStateMachine over a pool of ~250 inputs per worker (valid/invalid Python, every xonsh form, call/with/"
         "subprocess macros, path literals incl. pf, f-strings, inputs failing in the first and in the second pass) x options (mode, py_version); "
         "rules: parse(i) / parse_file(i) / parse_threads(batch, 2-8 threads, switch interval 1e-6..5e-3, start barrier) / keep(i) / verbose "
-        "parse; all histories of a worker run in ONE process, so state also carries over between histories.  Reference outcome of every (input, "
+        "parse / scribble(i) (parse, then rename, relocate and rewrite the returned tree in place: the caller owns it); all histories of a worker run in ONE process, so state also carries over between histories.  Reference outcome of every (input, "
         "options) = canonical outcome computed in FRESH interpreters (batches, and one parse per process for a sample; batch and single "
         "references must agree).  Oracle: every result equals the reference; after every step every kept tree re-dumps identically and the "
         "Load/Store/Del singletons carry no instance attributes, and the interpreter-wide settings (recursion limit, cwd, locale, warnings filters, "
@@ -201,6 +202,21 @@ def threaded_batch(pool, batch, nthreads, interval, low_limit):
     return results, problem
 
 
+def scribble_tree(tree):
+    """what a caller may do with a tree it was handed: rename, relocate, rewrite constants (contexts are left alone)"""
+    for n in ast.walk(tree):
+        if isinstance(n, ast.Name):
+            n.id = "_scribbled"
+        elif isinstance(n, ast.Attribute):
+            n.attr = "_scribbled"
+        elif isinstance(n, ast.Constant) and isinstance(n.value, str):
+            n.value = "_scribbled"
+        for a in ("lineno", "end_lineno", "col_offset", "end_col_offset"):
+            v = getattr(n, a, None)
+            if isinstance(v, int) and "lineno" in getattr(n, "_attributes", ()):
+                setattr(n, a, v + 1000)
+
+
 def make_machine(rec, pool, refs, tmpdir):
     S = repo_modules()["S"]
     XP = XonshParser()
@@ -312,6 +328,16 @@ def make_machine(rec, pool, refs, tmpdir):
                 self.kept.append((i, o.tree, dump(o.tree)))
                 self.kept = self.kept[-8:]
 
+        @rule(i=idx)
+        def scribble(self, i):
+            """the caller owns the tree it gets: editing it in place must not show in any later parse"""
+            it = pool[i]
+            steps_log.append(["scribble", i])
+            rec.count("step:scribble")
+            o = outcome(it["src"], it["mode"], **({"py_version": tuple(it["version"])} if it["version"] else {}))
+            if o.kind == "tree":
+                scribble_tree(o.tree)
+
         @invariant()
         def kept_trees_unchanged(self):
             for i, tree, d in self.kept:
@@ -355,6 +381,12 @@ def check(rec, case):
 
     for st_ in steps:
         kind = st_[0]
+        if kind == "scribble":
+            it = pool[st_[1]]
+            o = outcome(it["src"], it["mode"], **({"py_version": tuple(it["version"])} if it["version"] else {}))
+            if o.kind == "tree":
+                scribble_tree(o.tree)
+            continue
         if kind in ("parse", "keep"):
             it = pool[st_[1]]
             if kind == "keep":
